@@ -1,15 +1,15 @@
 SPECIFICATION Spec
 CONSTANTS
   FmlaErrorRead = TRUE
-  RowSet = {0, 1, 1048575}
-  ColSet = {0, 127, 128, 16383}
-  Vals = {1, 23}
-  Ign = "none"
-  MaxRows = 3
+  RowSet = {0, 7}
+  ColSet = {0, 3}
+  Vals = {1, 26, 32}
+  Ign = "quick"
+  MaxRows = 2
   MaxCells = 2
-  MaxIgn = 0
-  Pres = "one"
-  MaxArea = 1100000
+  MaxIgn = 1
+  Pres = "all"
+  MaxArea = 2097152
 INVARIANTS RowAgrees PrefixOK Incremental PreambleOK Refines Dump
 CONSTRAINT AreaConstraint
 CHECK_DEADLOCK FALSE
